@@ -321,9 +321,33 @@ func Choose(n int, label string) int {
 	return idx
 }
 
+// Free-running mode: the same scenario bodies run on plain goroutines with the shims in pass-through
+// mode (real sync primitives), so that a -race build can see unsynchronised accesses which the
+// cooperative scheduler's hand-offs would hide. Go tracks the spawned goroutines, WaitOthers joins them.
+var (
+	free   atomic.Bool
+	freeWG sync.WaitGroup
+)
+
+// FreeRun executes body once in free-running mode and joins every goroutine started through Go.
+func FreeRun(body func()) {
+	free.Store(true)
+	defer free.Store(false)
+	body()
+	freeWG.Wait()
+}
+
 // Go starts f as a new managed thread (or as a plain goroutine when no exploration is active).
 func Go(f func()) {
 	if !Active() {
+		if free.Load() {
+			freeWG.Add(1)
+			go func() {
+				defer freeWG.Done()
+				f()
+			}()
+			return
+		}
 		go f()
 		return
 	}
@@ -371,6 +395,9 @@ func Step() int {
 // WaitOthers blocks the calling thread until every other thread is done (join-all).
 func WaitOthers() {
 	if !Active() {
+		if free.Load() {
+			freeWG.Wait()
+		}
 		return
 	}
 	s := cur
